@@ -68,6 +68,9 @@ SnTargetV(s) == Unique(ViewV(s))          \* the reference in V's request; and A
 \* A has a second functional group G2 as parent (written after G).  G2 defines a DOP m and a request with DOP-SNREF m;
 \* V defines a DOP m of its own exactly when it defines n.  The inheritance graph branches at A: re-targeting to V must
 \* reach the objects of EVERY parent, not only those of the first chain.
+\* a row of A's table that names its data object by short name (a typed lookup: structures do not count); V's table includes
+\* the row by TABLE-ROW-REF, which does not make it V's row: it stays bound in A's view
+SnTargetRowA(s) == IF DopOfA(s) = {} THEN "none" ELSE CHOOSE x \in DopOfA(s) : TRUE
 SnTargetG2(s) == "G2.m"                                         \* as loaded
 SnTargetG2Retargeted(s) == IF s.vdop THEN "V.m" ELSE "G2.m"     \* after re-targeting to V
 
